@@ -114,11 +114,17 @@ impl<'tree, D: Doc> MetaVarEnv<'tree, D> {
     var_matchers: &HashMap<MetaVariableID, M>,
   ) -> bool {
     let mut env = Cow::Borrowed(self);
-    for (var_id, candidate) in &self.single_matched {
-      if let Some(m) = var_matchers.get(var_id) {
-        if m.match_node_with_env(candidate.clone(), &mut env).is_none() {
-          return false;
-        }
+    // constraints may bind variables that other constraints use: check them in a fixed
+    // order so the outcome does not depend on the maps' hash seeds
+    let mut constrained: Vec<_> = self
+      .single_matched
+      .iter()
+      .filter_map(|(var_id, candidate)| Some((var_id, candidate, var_matchers.get(var_id)?)))
+      .collect();
+    constrained.sort_unstable_by_key(|(var_id, ..)| *var_id);
+    for (_, candidate, m) in constrained {
+      if m.match_node_with_env(candidate.clone(), &mut env).is_none() {
+        return false;
       }
     }
     if let Cow::Owned(env) = env {
